@@ -42,7 +42,7 @@ def run(tier, replay=None):
         states=st["states"] + vres["states"] + g.distinct, transitions=st["transitions"] + vres["transitions"] + g.generated,
         nil_failures_with_position=sum(1 for c in cases if not c["rejected"] and c["obs"][0]["fclass"] == "nil"),
         evaluations=len(cases), distinct_nontrivial=len(cases),
-        rule="GenOpt.tla: the full product carrier{var,param,result,elem} x type{int,str,list} x {nil,present} x 12 uses x 4 positions; exhaustive",
+        rule="GenOpt.tla: the full product carrier{var,param,result,elem} x type{int,str,list} x {nil,present} x 22 uses (incl. a bare `get` statement and `get` behind multi-byte text on its line) x 4 positions; exhaustive",
         exhaustive=True,
         samples=[dict(id=c["id"], src=c["src"], out=c["obs"][0]["out"]) for c in cases[:: max(1, len(cases) // 3)][:3]],
     )
